@@ -789,6 +789,17 @@ def run(ctx):
     verdicts = {}
 
     descs = gen_jws(ctx) + gen_jwe(ctx)
+    if ctx.quick:
+        # thin the product: every (entry, alg) keeps its suitable key; each defect stays on about half of the
+        # entry points (the entry points of one family share the defect list, so every defect is still
+        # exercised on several entry points of every family)
+        keep, seen = [], set()
+        for d in descs:
+            first = (d["entry"], d["alg"]) not in seen
+            seen.add((d["entry"], d["alg"]))
+            if first or d.get("variant") == "pubmac" or rng.random() < 0.5:
+                keep.append(d)
+        descs = keep
     exported = None
     for d in descs:
         r = runner.run_jws(d) if d["fam"] == "jws" else runner.run_jwe(d)
